@@ -58,7 +58,26 @@ def run(index, tier="quick", seed=0) -> Result:
         if missing:
             res.bad("FF-1", label, f"{fn.file}:{getattr(missing[0], 'lineno', fn.lineno)}", f"{label}: `density` does not reach the returned amplitude")
         else:
-            res.ok("FF-1", label)
+            # ... and reaches every part of it: the returned array is assembled by masked stores (the q = 0 entries, the others);
+            # either the whole array is multiplied by a density-dependent factor after the last store, or every stored / added
+            # value carries the density itself
+            rname = {n_.value.id for n_ in ast.walk(fn.node) if isinstance(n_, ast.Return) and isinstance(n_.value, ast.Name)}
+            parts = [e for e in r["events"] if e.func is fn and len(e.path) == 1 and (
+                (e.type == "local-store" and e.f.get("name") in rname)
+                or (e.type == "augassign" and isinstance(e.node, ast.AugAssign) and isinstance(e.node.target, ast.Subscript)
+                    and isinstance(e.node.target.value, ast.Name) and e.node.target.value.id in rname))]
+            whole = [e for e in r["events"] if e.func is fn and len(e.path) == 1 and e.type == "augassign" and isinstance(e.node, ast.AugAssign)
+                     and isinstance(e.node.target, ast.Name) and e.node.target.id in rname and e.f.get("op") in ("Mult",)
+                     and e.f.get("rhs") is not None and "density" in e.rhs.pdeps]
+            last_part = max((e.time for e in parts), default=None)
+            covered = bool(whole) and (last_part is None or any(w.time > last_part for w in whole))
+            bare = [e for e in parts if "density" not in ((e.f.get("value") or e.f.get("rhs")).pdeps if (e.f.get("value") or e.f.get("rhs")) is not None else ())]
+            if own and parts and not covered and bare:
+                e = bare[0]
+                res.bad("FF-1", label + ":part-without-density", e.where(), f"{label}: the entries stored by `{e.src()[:60]}` never meet `density` (the other entries do): "
+                        "F(q) is density * (...) for some wave vectors and the bare geometric amplitude for the rest - at q = 0 the volume instead of density * volume")
+            else:
+                res.ok("FF-1", label)
         # FF-3
         sq = [e for e in r["events"] if e.type == "squeeze" and e.target is not None and "batch" in e.target.tags and e.axis is None]
         nsq = len([e for e in r["events"] if e.type == "squeeze"])
